@@ -275,8 +275,19 @@ func (t *FakeTransport) Actions() []sched.EnvAction {
 			def = end - t.Delivered
 		}
 	}
-	for def > 1 && t.NoCut != nil && def < len(t.pending) && t.NoCut(t.pending, def) {
-		def--
+	if t.NoCut != nil && def < len(t.pending) && t.NoCut(t.pending, def) {
+		// the preset boundary is not allowed here: move it forward (byte-wise presets) or back
+		d := def
+		for d < avail && d < len(t.pending) && t.NoCut(t.pending, d) {
+			d++
+		}
+		if d < len(t.pending) && t.NoCut(t.pending, d) {
+			d = def
+			for d > 1 && t.NoCut(t.pending, d) {
+				d--
+			}
+		}
+		def = d
 	}
 	mk := func(k int) sched.EnvAction {
 		return sched.EnvAction{Label: "rd:" + strconv.Itoa(k), Do: func() {
